@@ -111,12 +111,23 @@ pub fn configs(prop: &str, thorough: bool) -> Vec<SimConfig> {
                 ("host", vec!["http://a", "http://b"]),
                 ("upper-case-ports", vec!["http://A:8080", "http://A:9090"]),
                 ("upper-case-default-port", vec!["http://A", "http://A:8080"]),
+                // schemes the transport treats alike (plain: http/ws, TLS: https/wss) are still different origins
+                ("ws-vs-http", vec!["ws://a:8080", "http://a:8080"]),
+                ("wss-vs-http", vec!["wss://a:8443", "http://a:8443"]),
+                ("wss-vs-https", vec!["wss://a", "https://a"]),
             ] {
                 let mut c = full(&format!("n2-{name}"), 2, true);
                 c.origins = origins(&os);
+                // the state graphs of the menus are isomorphic as long as the two keys are distinct (identical
+                // counts); a key collision shows within a few events. Quick tier: two menus to fixpoint, the
+                // others to depth 12; thorough: all to fixpoint.
+                if !thorough && name != "scheme" && name != "host" {
+                    c.max_depth = Some(12);
+                }
                 v.push(c.clone());
                 if thorough || name == "scheme" {
                     let mut c3 = c.clone();
+                    c3.max_depth = None;
                     c3.name = format!("n3-{name}-slice");
                     c3.max_requests = 3;
                     c3.ev_close = false;
